@@ -185,8 +185,18 @@ func c19LineShape(c *Ctx) {
 			}
 			seen[b] = true
 			for _, in := range b.Instrs {
-				if call, ok := in.(*ssa.Call); ok && calleeName(call) == "(*"+structsPkg+".Field).Kind" {
-					return true
+				if call, ok := in.(*ssa.Call); ok {
+					if calleeName(call) == "(*"+structsPkg+".Field).Kind" {
+						return true
+					}
+					// the kind switch may sit in a helper that renders one field
+					if cal := call.Call.StaticCallee(); cal != nil && IsFirstParty(cal) && cal.Blocks != nil {
+						for _, ci := range callsIn(cal) {
+							if calleeName(ci) == "(*"+structsPkg+".Field).Kind" {
+								return true
+							}
+						}
+					}
 				}
 			}
 			work = append(work, b.Succs...)
